@@ -1042,6 +1042,13 @@ fn evaluate_scalar_func(
 
             let result: StringArray = (0..str_arr.len())
                 .map(|i| {
+                    // NULL string, start or length gives NULL
+                    if str_arr.is_null(i)
+                        || start_arr.is_null(i)
+                        || len_arr.map(|l| l.is_null(i)).unwrap_or(false)
+                    {
+                        return None;
+                    }
                     let s = str_arr.value(i);
                     let start = get_int_value(start_arr, i).unwrap_or(1) as usize;
                     let start = start.saturating_sub(1); // SQL is 1-indexed
@@ -1680,7 +1687,7 @@ fn evaluate_scalar_func(
 
             let result: StringArray = (0..str_arr.len())
                 .map(|i| {
-                    if str_arr.is_null(i) {
+                    if str_arr.is_null(i) || len_arr.is_null(i) {
                         None
                     } else {
                         let s = str_arr.value(i);
@@ -1723,7 +1730,7 @@ fn evaluate_scalar_func(
 
             let result: StringArray = (0..str_arr.len())
                 .map(|i| {
-                    if str_arr.is_null(i) {
+                    if str_arr.is_null(i) || len_arr.is_null(i) {
                         None
                     } else {
                         let s = str_arr.value(i);
@@ -1761,7 +1768,7 @@ fn evaluate_scalar_func(
 
             let result: StringArray = (0..str_arr.len())
                 .map(|i| {
-                    if str_arr.is_null(i) || delim_arr.is_null(i) {
+                    if str_arr.is_null(i) || delim_arr.is_null(i) || idx_arr.is_null(i) {
                         None
                     } else {
                         let s = str_arr.value(i);
@@ -1923,7 +1930,7 @@ fn evaluate_scalar_func(
 
             let result: StringArray = (0..str_arr.len())
                 .map(|i| {
-                    if str_arr.is_null(i) {
+                    if str_arr.is_null(i) || len_arr.is_null(i) {
                         None
                     } else {
                         let s = str_arr.value(i);
@@ -1949,7 +1956,7 @@ fn evaluate_scalar_func(
 
             let result: StringArray = (0..str_arr.len())
                 .map(|i| {
-                    if str_arr.is_null(i) {
+                    if str_arr.is_null(i) || len_arr.is_null(i) {
                         None
                     } else {
                         let s = str_arr.value(i);
@@ -1977,7 +1984,7 @@ fn evaluate_scalar_func(
 
             let result: StringArray = (0..str_arr.len())
                 .map(|i| {
-                    if str_arr.is_null(i) {
+                    if str_arr.is_null(i) || count_arr.is_null(i) {
                         None
                     } else {
                         let s = str_arr.value(i);
@@ -5769,6 +5776,10 @@ fn constant_int_value(expr: &crate::planner::Expr, arr: &ArrayRef) -> Option<i64
 }
 
 fn get_int_value(arr: &ArrayRef, idx: usize) -> Option<i64> {
+    // A NULL slot has no value: reading the physical slot would turn NULL into 0.
+    if idx >= arr.len() || arr.is_null(idx) {
+        return None;
+    }
     if let Some(i64_arr) = arr.as_any().downcast_ref::<Int64Array>() {
         return Some(i64_arr.value(idx));
     }
